@@ -184,7 +184,6 @@ var c08NameAddrRaw = []string{"<", ">", "<>", ";tag=", ";tag=a", "\"unterminated
 var c08CSeq = []string{"", "INVITE", "1", "99999999999999999999 INVITE", "-1 INVITE", "1 2 3", "x INVITE", "1  INVITE", "1 "}
 var c08Start = []string{"", " ", "INVITE", "INVITE sip:a", "INVITE  sip:a@b  SIP/2.0", "INVITE sip:a@b SIP/2.0 extra", "SIP/2.0", "SIP/2.0 200", "SIP/2.0 abc OK", "SIP/2.0 99999999999999999999 OK", "SIP/2.0 0 x", "SIP/2.0 -1 x", "SIP/ 200 OK", "\x00 sip:a@b SIP/2.0", "INVITE sip:[ SIP/2.0", "INVITE sip: SIP/2.0", "INVITE : SIP/2.0", "INVITE sip:a@b:99999999999 SIP/2.0", "INVITE sip:svc.test;;;; SIP/2.0", "INVITE sip:svc.test?? SIP/2.0", strings.Repeat("A ", 200)}
 
-
 // c08Numbers: decimal texts around every width boundary an integer decoder can
 // trip over (int8 ... uint64, float53), both signs, plus oddly written ones.
 func c08Numbers() []string {
